@@ -36,8 +36,9 @@ CHECK = Check(
     pre_steps=[facts_step, race_step],
     trusted=[
         "Go memory model (TRUSTED, not proved): a data-race-free Go program is sequentially consistent, i.e. behaves like some "
-        "interleaving of atomic steps of its goroutines; a channel receive happens after the matching send; the Go scheduler "
-        "eventually runs every runnable goroutine. The theorems are about the FOOTPRINTS of the model, not about the compiled program",
+        "interleaving of atomic steps of its goroutines; the `go` statement happens-before the start of the goroutine it launches (so every "
+        "goroutine sees the preamble's index vectors and the caller's arrays as initialised); a channel receive happens after the matching send; "
+        "the Go scheduler eventually runs every runnable goroutine. The theorems are about the FOOTPRINTS of the model, not about the compiled program",
         "the footprints themselves: cell i's step (OW.Sim.cellStep, the C04 wrapper semantics) reads parameters, inputs, its own state "
         "row and output rows and writes only its own state row and output rows — a property of the list-level model OW/Sim/Wrapper.lean; "
         "tied to the source on every run by (A) the regenerated structural facts: harness/cmd/owrunfacts (go/parser + go/ast, general "
@@ -65,8 +66,16 @@ CHECK = Check(
         "T2/T3: tasks pairwise disjoint (no task writes what another reads or writes) — for cells this is proved (cells_disjoint), "
         "for arbitrary tasks it is the hypothesis",
         "T3: the vectorised run succeeds (`runCells … = .ok`); a Go panic in any goroutine kills the process (no result to compare)",
-        "the states array is at least as wide as every cell's state vector (otherwise ApplySlice copies past the row into the next "
-        "cell's row — caller error, same assumption as C04)",
+        "ROW WIDTH: every cell's state vector fits its row of the states array (`r.states.length <= st.length` for every cell). The list-level "
+        "model truncates there (`overwrite`), so cells_any_interleaving / refined_cells_any_interleaving are TRUE of the model without it, but the "
+        "code is not the model there: ApplySlice copies past the row into the NEXT cell's row, the footprints overlap and the states become "
+        "schedule-dependent — reachable from the repository's own InitialiseStates, which sizes the array from cell 0 (known findings "
+        "KF-C05-GR4J-InitialiseStates-row-width / KF-C05-Lag-InitialiseStates-row-width, scope race:<M>:InitialiseStates-row-width), not a caller error",
+        "STORAGE DISJOINTNESS (the hypotheses of C04Nd.views_disjoint / write_invisible_to_other_cells): the states, outputs, parameters and inputs "
+        "arrays live in pairwise different storages (states != outputs, states/outputs != parameters/inputs; parameters and inputs may share one), "
+        "non-negative Impl offsets, extents >= 1. The addresses `st i`, `out i` of OW/Sim/CellTasks.lean are ASSERTED to be distinct memory for "
+        "distinct i; that they are distinct STORAGE POSITIONS is derived only at the view level (C04Nd.views_disjoint) under these hypotheses and is "
+        "not composed with the interleaving theorems in Lean",
         "T4: unbuffered channel, every goroutine sends exactly once after finishing, the parent receives exactly N times; "
         "T4' (wg_join_complete): Add(N) before the launches, every goroutine calls Done() exactly once after finishing, Wait() returns "
         "only at counter 0 (sync.WaitGroup trusted) — established for the source by the facts: sendOk/launchOk/recvOk",
@@ -77,8 +86,16 @@ CHECK = Check(
     partial=[
         "partial by nature: schedule independence is proved for the MODEL's footprints; DRF ⇒ sequential consistency, channel "
         "happens-before and the scheduler are trusted (Go memory model)",
-        "owsim_no_conflict (DESIGN T3: writer/main transition system at generation-object granularity) is not in this module: it "
-        "belongs to the C07 writer-protocol model",
+        "granularity: in OW/Sim/CellTasks.lean each cell is ONE atomic step with the asserted footprint [st i, out i]; "
+        "refined_cells_any_interleaving removes the atomicity (ANY splitting of a cell's goroutine into steps with footprints inside its own rows whose "
+        "sequential effect is cellStepM ends, under every interleaving, in the sequential memory), but the footprints stay row-level addresses that are "
+        "asserted, not derived from the strided views' storage positions (that derivation is C04Nd.views_disjoint, not composed here)",
+        "per-model-goroutine footprints of ow-sim's runGeneration (each model type owns its generation object): NOT proved here — only the launch/join "
+        "skeleton (facts + join_complete / wg_join_complete)",
+        "writer goroutine vs main loop of ow-sim (which generation objects the writer reads while the main loop runs later generations): not in this "
+        "module; C07's writer_no_conflict covers the protocol model, the gaps between that model and the code (purge, link application) are C07's partial list",
+        "DESIGN C05-T3 (writer/main transition system at generation-object granularity) is not in this module: it is "
+        "OW.Props.C07.writer_no_conflict, part of the C07 writer-protocol model",
     ],
 )
 
@@ -88,7 +105,8 @@ META = dict(
          "disjoint_interleaving (+_view, same_view_in_all_interleavings): for pairwise disjoint tasks EVERY interleaving ends in the memory "
          "of the sequential run and every step sees the values its own task produced; cells_disjoint / cells_schedule_independent / "
          "cells_any_interleaving: on the C04 wrapper semantics the per-cell steps are pairwise disjoint, so every permutation and every "
-         "interleaving of the cells yields exactly `runCells` (the sequential cell-by-cell result); workers_disjoint / "
+         "interleaving of the cells yields exactly `runCells` (the sequential cell-by-cell result); refined_cells_any_interleaving: the same "
+         "when a cell's goroutine is split into ANY number of steps whose footprints stay inside its own rows (no atomicity of the cell step); workers_disjoint / "
          "pool_cells_any_interleaving: the same for every bounded worker pool over the cells (a task is a worker, its footprint the union of "
          "its cells' rows); join_complete (+ deadlock freedom, termination in exactly 2N steps) for the doneChan pattern and "
          "wg_join_complete for the sync.WaitGroup pattern, for every N. The footprints are tied to the source by regenerated "
